@@ -82,6 +82,9 @@ def run(ctx):
             probs.append("acceptance test is %s, expected j < k" % (fmt(acc[0][0]) if acc else "missing"))
             continue
         j = acc[0][0][2][0]
+        if not (j[0] == "call" and j[1].endswith("gen_range")):
+            probs.append("acceptance is tested on %s, not on the drawn index itself (the acceptance probability is no longer k/(i+1))" % fmt(j)[:80])
+            continue
         stores = [e for e in p.events if e["kind"] == "write" and e.get("name") == "index_mut" and self_field(e) == "reservoir"]
         gm = [e for e in p.events if e["kind"] == "write" and e.get("name") == "get_mut" and self_field(e) == "reservoir"]
         if gm and not stores:
